@@ -1,7 +1,7 @@
 """C11 — Accepted deletions are permanent and deletion times never move backwards."""
 from ._store import run_store
 
-THEOREMS = ['id_marker_permanent', 'address_time_monotone', 'marked_id_refused', 'marked_id_refused_forever', 'covered_by_address_refused', 'covered_by_address_refused_forever', 'newer_not_refused']
+THEOREMS = ['id_marker_permanent', 'address_time_monotone', 'marked_id_refused', 'marked_id_refused_forever', 'covered_by_address_refused', 'covered_by_address_refused_forever', 'newer_not_refused', 'covered_unretrievable', 'accepted_marks_ids', 'accepted_marks_addresses']
 
 
 def run():
